@@ -657,7 +657,9 @@ def _f91(vio):
     det = vio.get("detail") or {}
     if (vio.get("case") or {}).get("regime") is None or vio.get("kind") != "unexpected-error":
         return False
-    return "operands could not be broadcast together" in (det.get("got") or "") and \
+    got = det.get("got") or ""
+    return ("operands could not be broadcast together" in got or
+            "cannot broadcast records because keys don't match" in got) and \
         any("U[" in t for t in _c04_types(vio))
 
 
@@ -967,6 +969,24 @@ def _f119(vio):
     ts = [it.get("t") for it in items if isinstance(it, dict)]
     return vio.get("kind") == "invalid-result" and op.get("op") == "getitem" and "content" in ts and \
         "array" in ts[ts.index("content") + 1:] and "index[i] >= len(content)" in str(det.get("validityerror", ""))
+
+
+@mechanism("F127-regular-getitem-at-after-missing")
+def _f127(vio):
+    """a missing-value index array, then other items, then an integer reaching a RegularArray: the library's own
+    internal check fires ('RegularArray::getitem_next(SliceAt): !advanced.is_empty_advanced()') while the same data
+    as ListArray/ListOffsetArray is sliced"""
+    return vio.get("kind") in ("outcome-kind-differs", "unexpected-error") and \
+        "RegularArray::getitem_next(SliceAt): !advanced.is_empty_advanced()" in str(vio.get("detail"))
+
+
+@mechanism("F128-reduce-branching-records-below-indexed")
+def _f128(vio):
+    """reducers through records whose fields differ in depth, when an indexed/option node lies above the record (a
+    lazy carry puts an IndexedArray64 there): refused ('reduce_next with branching depth ...'; before the F82 repair:
+    '... only expected to return RegularArray or ListOffsetArray64') while the same data without that node reduces"""
+    return vio.get("kind") in ("lazy-outcome-differs", "outcome-kind-differs") and \
+        "reduce_next with branching depth" in str(vio.get("detail"))
 
 
 @mechanism("F10-reduce-nonlocal")
